@@ -16,6 +16,7 @@ import common
 import dfinv
 import vgen
 import unit_l2_msm
+import unit_l2_rows
 from vgen import FnSpec, norm_ws, strip_attrs_and_docs
 from rsx import ToolLimit
 
@@ -65,6 +66,7 @@ pub proof fn lemma_bits_len(v: int, len: nat)
 {
     if len > 0 { lemma_bits_len(v / 2, (len - 1) as nat); }
 }
+pub proof fn lemma_pow2_64_32() ensures pow2(64) == 0x1_0000_0000_0000_0000, pow2(32) == 0x1_0000_0000 { assert(pow2(64) == 0x1_0000_0000_0000_0000) by(compute); assert(pow2(32) == 0x1_0000_0000) by(compute); }
 pub proof fn lemma_bits_inj(a: int, b: int, len: nat)
     requires 0 <= a < pow2(len), 0 <= b < pow2(len), bits_of_int(a, len) == bits_of_int(b, len),
     ensures a == b,
@@ -628,6 +630,20 @@ def emit_module(vf, exp, path, mod, depth, stats, leafs, parent_mod=None):
         elif fr.kind in ('vec', 'vec_len'):
             emit_vec(vf, exp, path, fr, i2, fr.kind == 'vec_len')
             stats['record'].append(('::'.join(path), True))
+        elif unit_l2_rows.looks_like_rows(fr):
+            # row fragments: checked copies under contract + the external stubs the data segment calls
+            rsh = unit_l2_rows.emit(vf, exp, path, fr, i2)
+            stats['record'].append(('::'.join(path), True))
+            stats['opaque'].append(('::'.join(path), 'row fragment stubs called by the data segment (contract clauses proved on encode_checked/decode_checked)'))
+            extra = ''
+            m = re.search(r'par: &mut Parser\s*,\s*(.+?)\)\s*->', fr.dec_sig)
+            if m:
+                extra = ', ' + m.group(1)
+            stub = opaque_frag_stub(fr.name, None, extra)
+            stub = stub.replace('// L0: append-only', '// L0: append-only\n                    r is Err ==> (r->Err_0 is BufferOverflow || r->Err_0 is OutOfRange),')
+            stub = stub.replace('ensures final(par).nz(),', 'ensures final(par).nz(),   // + the clauses proved on decode_checked:\n                    '
+                                + ',\n                    '.join(c.replace('\n', ' ') for c in rsh['stub_decode_ensures']) + ',')
+            vf.emit(stub.replace('            ', i2))
         elif unit_l2_msm.is_msm_data(fr):
             fr.parent = parent_mod
             fr.sat_elem = find_sat_elem(exp, mod, fr)
@@ -685,6 +701,28 @@ def emit_mappings(vf, exp):
             vgen.emit_fn(vf, exp, base + ['impl:SigId', fn], sp, label='msm_mappings::%s::SigId::%s' % (g.name, fn), indent='                ', keep_pub=True)
         vf.emit('            }')
         vf.emit('            pub proof fn lemma_id_range(s: SigId) ensures to_id_spec(s) is Some ==> 2 <= to_id_spec(s)->Some_0 <= 32 {}')
+        # the hand-written Ord on SigId (order of mask positions), as in unit sigtab: real text as a free function (X6)
+        vf.emit('''            pub open spec fn cmp_spec(a: SigId, b: SigId) -> core::cmp::Ordering {
+                match (to_id_spec(a), to_id_spec(b)) {
+                    (Some(l), Some(r)) => crate::ord3(l as int, r as int),
+                    (None, Some(_)) => core::cmp::Ordering::Greater,
+                    (Some(_), None) => core::cmp::Ordering::Less,
+                    (None, None) => if a.0 != b.0 { crate::ord3(a.0 as int, b.0 as int) } else { crate::ord3(a.1 as u32 as int, b.1 as u32 as int) },
+                }
+            }''')
+        sp = FnSpec(); sp.ret = 'res'; sp.body_props = {'C10'}; sp.rename = 'sig_cmp'
+        sp.sigreplace = [(r'fn cmp\(&self, other: &Self\)', 'fn cmp(slf: &SigId, other: &SigId)', 'trait method Ord::cmp emitted as free fn, self -> slf')]
+        sp.replace = [(r'\bself\b', 'slf', 'self renamed to slf (free function)')]
+        sp.ensures = [('l2.sig.%s.cmp' % g.name, {'C10'}, 'res == cmp_spec(*slf, *other)')]
+        vgen.emit_fn(vf, exp, base + ['Ord for SigId', 'cmp'], sp, label='msm_mappings::%s::SigId::cmp' % g.name, indent='            ', keep_pub=True)
+        vgen.emit_lemma(vf, 'l2.sig.%s.total_order' % g.name, {'C10'}, '''            pub proof fn lemma_total_order(a: SigId, b: SigId, c: SigId)
+                ensures
+                    cmp_spec(a, a) == core::cmp::Ordering::Equal,
+                    (cmp_spec(a, b) == core::cmp::Ordering::Less) == (cmp_spec(b, a) == core::cmp::Ordering::Greater),
+                    (cmp_spec(a, b) == core::cmp::Ordering::Equal) == (cmp_spec(b, a) == core::cmp::Ordering::Equal),
+                    cmp_spec(a, b) != core::cmp::Ordering::Greater && cmp_spec(b, c) != core::cmp::Ordering::Greater ==> cmp_spec(a, c) != core::cmp::Ordering::Greater,
+                    to_id_spec(a) is Some && to_id_spec(b) is Some ==> cmp_spec(a, b) == crate::ord3(to_id_spec(a)->Some_0 as int, to_id_spec(b)->Some_0 as int),
+            {}''')
         vf.emit('        }')
     vf.emit('    }')
     for g in [c for c in mm.children if c.kind == 'mod']:
